@@ -585,11 +585,16 @@ where
 
         file.seek(SeekFrom::Start(0)).await?;
 
-        let mut guard = file.lock_write().await.map_err(|e| e.error)?;
-        guard.write_all(self.identity).await?;
+        // Write the whole header with one call so that an
+        // interruption cannot leave the identity bytes without
+        // the encoding version that belongs to them
+        let mut header = self.identity.to_vec();
         if let Some(version) = self.version {
-            guard.write_all(&version.to_le_bytes()).await?;
+            header.extend_from_slice(&version.to_le_bytes());
         }
+
+        let mut guard = file.lock_write().await.map_err(|e| e.error)?;
+        guard.write_all(&header).await?;
         guard.flush().await?;
 
         Ok(())
@@ -686,13 +691,19 @@ where
             .open(path.as_ref())
             .await?;
 
+        let mut header = identity.to_vec();
+        if let Some(version) = encoding_version {
+            header.extend_from_slice(&version.to_le_bytes());
+        }
+
+        // A file that is shorter than its header holds no records
+        // (it is new, or a rewrite of the log was interrupted):
+        // write the header again so that records appended later
+        // start where the readers expect them
         let size = vfs::metadata(path.as_ref()).await?.len();
-        if size == 0 {
+        if size < header.len() as u64 {
+            file.set_len(0).await?;
             let mut guard = file.lock_write().await.map_err(|e| e.error)?;
-            let mut header = identity.to_vec();
-            if let Some(version) = encoding_version {
-                header.extend_from_slice(&version.to_le_bytes());
-            }
             guard.write_all(&header).await?;
             guard.flush().await?;
         }
